@@ -290,11 +290,15 @@ package syncer
 //@ func (s *Syncer) LoadOnce$1
 //@   noswallow
 //@   loop 0 invariant not_failed: ghost_loc_failed == 0
-//@   at_call lmdb.(*Txn).OpenDBI#0 assert not_private: !hasPrefix(dbiName, "_sync")
+//@   at_call lmdb.(*Txn).OpenDBI#0 assert not_private: !hasPrefix(arg1, "_sync") && arg1 == dbiMsg.name
 //@   at_call lmdb.(*Txn).OpenDBI#0 assert create_rule: snap.FormatVersion >= 3 || dbiOpt.OverrideCreateFlags != nil
-//@   at_call lmdb.(*Txn).OpenDBI#1 assert not_private: !hasPrefix(dbiName, "_sync")
-//@   at_call lmdb.(*Txn).OpenDBI#2 assert not_private: !hasPrefix(dbiName, "_sync")
-//@   at_call strategy.Update#0 assert not_private: !hasPrefix(dbiName, "_sync")
+//@   let isTarget = !hasPrefix(dbiMsg.name, "_sync") && (schemaTracksChanges ==> arg1 == dbiMsg.name) && (!schemaTracksChanges ==> hasPrefix(arg1, "_sync_shadow_") && len(arg1) == 13 + len(dbiMsg.name))
+//@   at_call lmdb.(*Txn).OpenDBI#1 assert not_private: isTarget
+//@   at_call lmdb.(*Txn).OpenDBI#2 assert not_private: isTarget
+//@   after_call lmdb.(*Txn).OpenDBI#2 ghost loc_target := uint64(ret0)
+//@   after_call syncer.NewNativeIterator#0 ghost loc_it := refOf(ret0)
+//@   at_call syncer.NewNativeIterator#0 assert merges_this_dbi: arg2 == dbiMsg
+//@   at_call strategy.Update#0 assert not_private: !hasPrefix(dbiMsg.name, "_sync") && uint64(arg1) == ghost_loc_target && refOf(arg2) == ghost_loc_it
 //@   at_call strategy.Update#0 assert validated: ghost_loc_validated == 1
 //@   after_call snapshot.(*DBI).ValidateTransform#0 ghost loc_validated := ite(ret0 == nil, 1, 0)
 //@   at_call syncer.NewNativeIterator#0 assert txn_id: uint64(arg4) == ghost_curTxn && arg3 == 0 && arg0 == snap.FormatVersion && arg1 == snap.CompatVersion
